@@ -92,7 +92,8 @@ pub fn run(ctx: &Ctx) -> Value {
                 tw.emit(ev("ndt.add_months", json!({"dt": ndt(x), "k": big(-(k as i128))}), || json!({"r": opt(x.checked_sub_months(Months::new(k)), ndt)})));
             }
             counts[4] += 1;
-            let _ = x.hour();
+            tw.emit(ev("ndt.acc", json!({"dt": ndt(x)}), || { let iw = x.iso_week(); json!({"y": x.year(), "mo": x.month(), "d": x.day(), "ord": x.ordinal(), "wd": wd(x.weekday()), "iy": iw.year(), "iw": iw.week(),
+                "mo0": x.month0(), "d0": x.day0(), "ord0": x.ordinal0(), "h": x.hour(), "mi": x.minute(), "s": x.second(), "ns": x.nanosecond(), "date": dn(x.date()), "time": tod(x.time())}) }));
         }
     }
     // width aliases of valid replacement values
